@@ -658,8 +658,23 @@ func Rand(fn parser.Function, args []value.Primary, _ *option.Flags) (value.Prim
 	if high <= low {
 		return nil, NewFunctionInvalidArgumentError(fn, fn.Name, "the second argument must be greater than the first argument")
 	}
-	delta := high - low + 1
-	return value.NewInteger(r.Int63n(delta) + low), nil
+
+	// The number of integers in the range, high - low + 1, does not always fit in an int64.
+	span := uint64(high) - uint64(low)
+	if span < math.MaxInt64 {
+		return value.NewInteger(r.Int63n(int64(span)+1) + low), nil
+	}
+
+	n := r.Uint64()
+	if span < math.MaxUint64 {
+		// Values above the last multiple of span + 1 would favor the lower part of the range.
+		limit := math.MaxUint64 - (math.MaxUint64-span)%(span+1)
+		for limit < n {
+			n = r.Uint64()
+		}
+		n = n % (span + 1)
+	}
+	return value.NewInteger(int64(uint64(low) + n)), nil
 }
 
 func execStrings1Arg(fn parser.Function, args []value.Primary, stringsf func(string) string) (value.Primary, error) {
